@@ -98,7 +98,8 @@ static int count_dir(const std::string &d) {
 
 static void body(const Case &c, Result &r) {
   ensure_tmpdir();
-  std::string tdir = g_tmpdir + "/sort-" + std::to_string(getpid());
+  static int run_no = 0;  // a second run in the same process (history mode 2) gets a directory of its own
+  std::string tdir = g_tmpdir + "/sort-" + std::to_string(getpid()) + "-" + std::to_string(run_no++);
   mkdir(tdir.c_str(), 0700);
   // model
   std::map<bytes, std::vector<bytes>, BLess> mm;
